@@ -90,16 +90,19 @@ Definition v_implements_node (s : vschema) : res unit :=
   check (forallb (fun t => negb (obj_boundary t) || mem "Node" (td_ifaces t)) (vs_types s)) "boundary object does not implement Node".
 
 (* validate.go:33 validateBoundaryObjects *)
+(* validate.go usesBoundaryDirective: a boundary object, or a Query field marked as a lookup *)
+Definition uses_boundary (s : vschema) : bool :=
+  existsb obj_boundary (vs_types s) || match query_type s with Some q => existsb fd_boundary (td_fields q) | None => false end.
 Definition v_boundary_objects (s : vschema) : res unit :=
-  if negb (existsb obj_boundary (vs_types s)) then Ok tt else
+  if negb (uses_boundary s) then Ok tt else
   v_boundary_directive s ;;;
   v_boundary_format s ;;;
   match query_type s with
-  | None => Err "PANIC nil pointer dereference: schema.Query"            (* validate.go:391 / :227 *)
+  | None => Err "the schema is missing a Query type"
   | Some q =>
       (if uses_fields_boundary s then
          check (forallb boundary_query_ok (filter fd_boundary (td_fields q))) "invalid boundary query" ;;;
-         (if has_node_query q then Ok tt else v_boundary_fields s q)
+         (if has_node_query q then Ok tt else v_boundary_fields s q)       (* "node compatibility" *)
        else v_node_interface s ;;; v_implements_node s) ;;;
       (if has_node_query q then v_node_query q else Ok tt)
   end.
@@ -115,22 +118,37 @@ Definition v_namespace_ascendence (s : vschema) : res unit :=
   check (forallb (fun t => td_namespace t || is_root (td_name t) ||
                            forallb (fun f => negb (is_ns_type s (ty_name (fd_ty f)))) (td_fields t)) (vs_types s))
         "namespace type used in a non-namespace object".
-Fixpoint ns_links_nonnull (fuel : nat) (s : vschema) (tn : string) : bool :=
+(* validateNamespacesFields: depth-first through namespace-typed fields; the visited set (a Go map, shared by reference)
+   makes it terminate on cyclic namespace types.  Fuel is an artefact of Gallina: it is never exhausted when
+   fuel > number of types (each call marks a new type). *)
+Fixpoint ns_links (fuel : nat) (s : vschema) (visited : list string) (tn : string) : res (list string) :=
   match fuel with
-  | O => false            (* Go recurses without a visited set: a cycle of namespace links never returns *)
+  | O => Err "OUT OF FUEL"
   | S fuel =>
+      if mem tn visited then Ok visited else
       match find_type tn (vs_types s) with
-      | None => true
-      | Some t => forallb (fun f => negb (is_ns_type s (ty_name (fd_ty f))) ||
-                                     (ty_nn (fd_ty f) && ns_links_nonnull fuel s (ty_name (fd_ty f)))) (td_fields t)
+      | None => Ok visited
+      | Some t =>
+          fold_left (fun r f =>
+            match r with
+            | Err m => Err m
+            | Ok vis => if is_ns_type s (ty_name (fd_ty f))
+                        then if ty_nn (fd_ty f) then ns_links fuel s vis (ty_name (fd_ty f))
+                             else Err "namespace return type should be non nullable"
+                        else Ok vis
+            end) (td_fields t) (Ok (tn :: visited))
       end
+  end.
+Definition v_namespace_root (s : vschema) (r : option string) : res unit :=
+  match r with
+  | Some n => match ns_links (S (List.length (vs_types s))) s [] n with Ok _ => Ok tt | Err m => Err m end
+  | None => Ok tt
   end.
 Definition v_namespace_objects (s : vschema) : res unit :=
   if negb (existsb obj_namespace (vs_types s)) then Ok tt else
   v_namespace_directive s ;;;
   v_namespace_ascendence s ;;;
-  check (forallb (fun r => match r with Some n => ns_links_nonnull (S (List.length (vs_types s))) s n | None => true end)
-                 [vs_query s; vs_mutation s; vs_subscription s]) "namespace return type should be non nullable".
+  v_namespace_root s (vs_query s) ;;; v_namespace_root s (vs_mutation s) ;;; v_namespace_root s (vs_subscription s).
 
 (* validate.go:126 validateServiceQuery, :100 validateServiceObject *)
 Definition v_service_query (s : vschema) : res unit :=
